@@ -47,13 +47,17 @@ def gen_layer(rng, ver, spc, ncl, size_sectors, seed):
         elif style == "shuffled":
             idxs = rng.sample(range(min_idx, min_idx + 2 * len(alloc) + 1), len(alloc))
         phys = dict(zip(alloc, idxs))
-    return {"ver": ver, "spc": spc, "ncl": ncl, "size": size_sectors, "phys": {str(k): v for k, v in phys.items()}, "seed": seed}
+    # v1 BAT entries are sector numbers: a data area need not start on a multiple of the cluster size
+    skew = rng.randrange(1, spc) if (ver == 1 and spc > 1 and rng.random() < 0.4) else 0
+    return {"ver": ver, "spc": spc, "ncl": ncl, "size": size_sectors, "phys": {str(k): v for k, v in phys.items()}, "seed": seed, "skew": skew}
 
 
 def gen_recipe(rng, tier, big=False):
     ver = rng.choice([1, 2])
     spc = rng.choice([1, 1, 2, 8, 16, 63, 17, 128] + ([2048] if tier == "thorough" or big else []))
-    ncl = rng.choice([1, 2, 2, 3, 4, 6, 10, 20])
+    ncl = rng.choice([700, 1500, 4300]) if big else rng.choice([1, 2, 2, 3, 4, 6, 10, 20])
+    if big:
+        spc = rng.choice([1, 2, 8])
     size = ncl * spc - (rng.randrange(spc) if rng.random() < 0.4 else 0)
     size = max(size, 1)
     ncl = (size + spc - 1) // spc + rng.choice([0, 0, 2])
@@ -85,8 +89,9 @@ def build_layer(l):
     end = 64 + 4 * ncl
     for k, p in l["phys"].items():
         i = int(k)
-        off = p * cs
-        bat[i] = p * spc if l["ver"] == 1 else p
+        sk = l.get("skew", 0) if l["ver"] == 1 else 0
+        off = p * cs + sk * 512
+        bat[i] = p * spc + sk if l["ver"] == 1 else p
         loc[i] = off
         im.put_pat(off, cs, (l["seed"] + 13 * p) & 0xFF)
         end = max(end, off + cs)
@@ -160,7 +165,7 @@ def generate(seed, tier):
     n = 240 if tier == "quick" else 3000
     cases = []
     for i in range(n):
-        r = gen_recipe(rng, tier, big=(i % 70 == 3))
+        r = gen_recipe(rng, tier, big=(i % 25 == 3))
         align = rng.choice([8192] * 5 + [512, 512, 4096, 65536, 1 << 20, 1536])
         cases.append({"id": f"g{i}", "recipe": r, "align": align, "queries": gen_queries(rng, r, 10 if tier == "quick" else 16)})
     return cases
